@@ -80,5 +80,3 @@ func runEmptyBatch(x *core.Ctx) {
 		x.Nontrivial("emptybatch|" + node + "|" + order)
 	}
 }
-
-
